@@ -229,6 +229,10 @@ def extension_pairs(rng, side):  # pylint: disable=too-many-locals,too-many-stat
     while code in known or code in ref.GREASE:
         code = rng.randrange(2 ** 16)
     add(ext.TlsExtensionUnparsed(two(code), bytearray(data)), code, data)
+    # a registered type the library has no structure for (RFC 8446 4.2.11 / 4.2.10 / 4.2.2): carried as it came, and where
+    # it was put - the order of extensions is the sender's (and part of JA3)
+    member = rng.choice([etype.PRE_SHARED_KEY, etype.EARLY_DATA, etype.COOKIE])
+    add(ext.TlsExtensionUnparsed(member, bytearray(data)), member, data)
     return result
 
 
